@@ -622,7 +622,7 @@ pub enum Subsystem {
 }
 
 impl Subsystem {
-    fn from_frame(mut r: Frame) -> Option<Subsystem> {
+    fn from_frame(r: &mut Frame) -> Option<Subsystem> {
         r.get("changed").map(|raw| match &*raw {
             "database" => Subsystem::Database,
             "message" => Subsystem::Message,
